@@ -11,6 +11,7 @@ import Noodles.Hostile.CsiQuery
 import Noodles.Hostile.DriverC15Text
 import Noodles.Hostile.DriverC15Bin
 import Noodles.Hostile.DriverC15Codec
+import Noodles.Hostile.DriverC15Rec
 /-! Line-protocol handler for the hostile-input suites (`c15 …`). -/
 namespace Noodles.Hostile
 open Noodles.Wire hiding Bytes
@@ -91,6 +92,7 @@ def handleC15 : List String → String
     | some ms, some d, some ids, some st, some en =>
       fmtRes (fun (l : List Nat) => s!"ok:{fmtIds l}") (Csi.query true ms d ids st en)
     | _, _, _, _, _ => "bad-op"
+  | "rec" :: ws => (RecDriver.handle? ("rec" :: ws)).getD "bad-op"
   | ws => (Bin.handleC15Bin ws <|> CodecDriver.handle? ws).getD (TextDriver.handleC15Text ws)
 
 end Noodles.Hostile
